@@ -43,6 +43,8 @@ def cases(O):
              "tag`a${b + 'c'}d`; String.raw`x${y}`.trim();", "async () => { for await (const x of y) await (x + 'z'); }", "do x += 'a'; while (x.length < 3)", "a = function* (){ yield* b + 'c' }"]
     for i, code in enumerate(extra):
         cs.append({"id": "c08x-%d" % i, "config": vlib.default_config(), "calls": [{"code": code, "file": "x%d.js" % i}], "opts": opts})
+    # a reserved-prefix name bound in a header: refused, or else the output must still compile (no redeclaration by the injected let)
+    cs += F.reserved_header_cases(opts)
     return cs
 
 
